@@ -59,14 +59,39 @@ Absent   == <<"absent", "-", "-", "-">>
 InputOf(v, x) == CASE x = "body" -> v[2] [] x = "key" -> v[3] [] x = "time" -> v[4]
 
 In0 == [body |-> "orig", key |-> "P", time |-> "orig"]
-Honest(k, in) == [kind |-> k, in |-> in, hdr |-> [f \in Fields(k) |-> Rec(k, f, in)], free |-> FALSE, mix |-> FALSE]
+(* `struct`: which header variants the block carries.  A header has two optional parts (empty / *)
+(* proposed); a well-formed one carries exactly the part its kind dictates, and an empty block     *)
+(* carries no transactions:                                                                       *)
+(*   asis    - untouched                  both   - both parts present                             *)
+(*   neither - no part                    e_body - the empty part only, with transactions attached *)
+(*   e_only / p_only - the honest block of the OTHER kind for the same height (a control)         *)
+Honest(k, in) == [kind |-> k, in |-> in, hdr |-> [f \in Fields(k) |-> Rec(k, f, in)], free |-> FALSE, mix |-> FALSE,
+                  struct |-> "asis"]
 
 ---------------------------------------------------------------------------
 (* tamper cases *)
-BodyEdits == {"drop", "dup", "swap", "app_epoch", "app_poor"}
+BodyEdits == {"drop", "dup", "swap", "strip", "app_epoch", "app_poor"}
 TimeOut   == {"below1", "atprev", "beforeprev", "above1", "farabove"}
 KeyCases  == {"swap", "unknown", "offline"}
 FreeCases == {"fee_absent", "time_inwin", "offline_propose"}
+(* structural tampers: they change WHICH parts the header carries / whether an empty block has a  *)
+(* body.  E = the honest empty header of this height, P = an honest proposed header.              *)
+StructOf(s) ==
+    CASE s \in {"attach_p_sib",          \* E + the proposed header (and body) of an honest proposal of the same height
+                "attach_p_sib_nobody",   \* the same without the body
+                "attach_p_other",        \* E + the proposed header and body of a block of another height
+                "attach_p_fab",          \* E + a fabricated proposed header (matching height and parent) and body
+                "attach_e",              \* the honest proposed block + E
+                "attach_e_nobody",       \* the same with the body removed
+                "both_e_tampered",       \* both parts, a field of the empty part rewritten
+                "both_p_tampered"}       \* both parts, a field of the proposed part rewritten
+                                 -> "both"
+      [] s \in {"neither", "neither_body"} -> "neither"      \* no part at all (without / with a body)
+      [] s = "body_on_empty"              -> "e_body"       \* honest empty header with transactions attached
+      [] s = "to_empty"                   -> "e_only"       \* control: the honest empty block of this height
+      [] s = "to_proposed"                -> "p_only"       \* control: an honest proposal of this height
+StructNames == {"attach_p_sib", "attach_p_sib_nobody", "attach_p_other", "attach_p_fab", "attach_e", "attach_e_nobody",
+                "both_e_tampered", "both_p_tampered", "neither", "neither_body", "body_on_empty", "to_empty", "to_proposed"}
 
 FieldCases(k) == {[t |-> "field", f |-> f, op |-> op] : f \in Fields(k), op \in Ops}
 BodyCases(k)  == IF k = "empty" THEN {}
@@ -75,6 +100,7 @@ BodyCases(k)  == IF k = "empty" THEN {}
 TimeCases(k)  == IF k = "empty" THEN {} ELSE {[t |-> "time", c |-> c] : c \in TimeOut}
 KeyCs(k)      == IF k = "empty" THEN {} ELSE {[t |-> "key", c |-> c] : c \in KeyCases}
 FreeCs(k)     == IF k = "empty" THEN {} ELSE {[t |-> "free", c |-> c] : c \in FreeCases}
+StructCases(k) == {[t |-> "struct", s |-> s] : s \in StructNames \ (IF k = "empty" THEN {"to_empty", "attach_e"} ELSE {"to_proposed"})}
 MixCases(k)   == IF k \in MixKinds
                  THEN {[t |-> "mix", body |-> b, src |-> s] : b \in {"orig", "sib"}, s \in [BodyDep -> {"orig", "sib"}]}
                  ELSE {}
@@ -88,6 +114,7 @@ PairCases(k)  == IF k \in PairKinds
                              a \in FieldCases(k)}
                  ELSE {}
 Singles(k) == {[t |-> "none"]} \cup FieldCases(k) \cup BodyCases(k) \cup TimeCases(k) \cup KeyCs(k) \cup FreeCs(k) \cup MixCases(k)
+              \cup StructCases(k)
 Cases(k)   == Singles(k) \cup PairCases(k)
 
 (* Apply(b, c, D): the block after tamper case c.  D is the set of header fields in which the     *)
@@ -113,6 +140,7 @@ Apply(b, c, D) ==
                                                IF f \in BodyDep
                                                THEN Rec(b.kind, f, [b.in EXCEPT !.body = IF f \in D THEN c.src[f] ELSE c.body])
                                                ELSE b.hdr[f]]]
+      [] c.t = "struct" -> [b EXCEPT !.struct = StructOf(c.s)]
       [] c.t = "free"  -> IF c.c = "time_inwin" THEN [b EXCEPT !.in.time = "inwin", !.free = TRUE]
                           ELSE IF c.c = "fee_absent" THEN [b EXCEPT !.hdr["fee"] = Absent, !.free = TRUE]
                           ELSE [b EXCEPT !.free = TRUE]
@@ -124,8 +152,8 @@ Tampered(k, c) == TamperedD(k, c, Fields(k))
 
 ---------------------------------------------------------------------------
 (* the validator, stage by stage (code order) *)
-PStages == <<"link", "window", "seed", "fee", "proposer", "txhash", "txs", "bloom", "flags", "roots", "ipfs", "rcid">>
-EStages == <<"emptyhash">>
+PStages == <<"shape", "link", "window", "seed", "fee", "proposer", "txhash", "txs", "bloom", "flags", "roots", "ipfs", "rcid">>
+EStages == <<"shape", "emptyhash">>
 Stages(k) == IF k = "empty" THEN EStages ELSE PStages
 
 Ok == 0
@@ -149,14 +177,15 @@ InWindow(b) == b.in.time \in {"orig", "inwin"}
 Eligible(b) == b.in.key \in {"P", "other"}
 
 StageLevel(b, s) ==
-    CASE s = "link"      -> Max2(FieldLevel(b, "height"), FieldLevel(b, "parent"))
+    CASE s = "shape"     -> IF b.struct \in {"both", "neither", "e_body"} THEN Def ELSE Ok
+      [] s = "link"      -> Max2(FieldLevel(b, "height"), FieldLevel(b, "parent"))
       [] s = "window"    -> IF InWindow(b) THEN Ok ELSE Def
       [] s = "seed"      -> Max2(FieldLevel(b, "proof"), FieldLevel(b, "seed"))
       [] s = "fee"       -> FieldLevel(b, "fee")
       [] s = "proposer"  -> IF Eligible(b) THEN Ok ELSE Def
       [] s = "txhash"    -> FieldLevel(b, "txhash")
       [] s = "txs"       -> IF b.in.body \in {"dup", "app_epoch", "app_poor"} THEN Def
-                            ELSE IF b.in.body \in {"drop", "swap"} THEN May ELSE Ok
+                            ELSE IF b.in.body \in {"drop", "swap", "strip"} THEN May ELSE Ok
       [] s = "bloom"     -> FieldLevel(b, "bloom")
       [] s = "flags"     -> FieldLevel(b, "flags")
       [] s = "roots"     -> Max2(FieldLevel(b, "root"), FieldLevel(b, "idroot"))
@@ -168,9 +197,12 @@ Worst(b) == MaxOf({StageLevel(b, s) : s \in ToSet(Stages(b.kind))})
 
 (* the property's notion, written over the FIELDS (independently of the stage list): a block is  *)
 (* certainly inconsistent / certainly consistent; `may` mismatches leave it undetermined         *)
-Inconsistent(b) == \/ \E f \in Fields(b.kind) : FieldLevel(b, f) >= IfDiff
+WellFormed(b)   == b.struct \in {"asis", "e_only", "p_only"}   \* exactly one header part, no body on an empty block
+Inconsistent(b) == \/ ~WellFormed(b)
+                   \/ \E f \in Fields(b.kind) : FieldLevel(b, f) >= IfDiff
                    \/ b.kind # "empty" /\ (~InWindow(b) \/ ~Eligible(b) \/ StageLevel(b, "txs") = Def)
-Consistent(b)   == /\ \A f \in Fields(b.kind) : FieldLevel(b, f) = Ok
+Consistent(b)   == /\ WellFormed(b)
+                   /\ \A f \in Fields(b.kind) : FieldLevel(b, f) = Ok
                    /\ b.kind = "empty" \/ (InWindow(b) /\ Eligible(b) /\ StageLevel(b, "txs") = Ok)
 
 (* expectation of the table *)
